@@ -34,6 +34,7 @@ THEOREMS = [
 LEAN_MODULES = ["JinnsProofs.C09", "JinnsProofs.C09Holds"]
 RULE = ("cases = (generator kind, n, b, number of requests); every cursor owned by the generator is traced "
         "(store snapshot, PRNG-key-consumed flag, batch) with points labelled by their row in the initial store; "
+        "each scope is also run with one jitted get_batch (all non-stationary cases, small scopes of the others); "
         "non-trivial = the history crosses at least one epoch boundary after the first request (a second reshuffle "
         "is observed) and the points of the store are pairwise distinct; distinct = distinct case dicts")
 ASSUMPTIONS = [
@@ -80,7 +81,10 @@ def gen_cases(rng, tier):
                               "sizes": {k: list(v) for k, v in sizes.items()},
                               "requests": max(_req(*v) for v in sizes.values()),
                               "seed": rng.randrange(1 << 30)})
-    return cases
+    # the same histories under jax.jit: every non-stationary case, and the small scopes of the other kinds
+    jitted = [{**c, "jit": True} for c in cases
+              if c["kind"] == "nonstatio" or c["n"] <= (4 if tier == "quick" else 6)]
+    return cases + jitted
 
 
 def shrink_candidates(case):
@@ -114,6 +118,20 @@ def _label_fn(rows):
 
 
 def run_impl(case):
+    import jax
+
+    # jitted cases run in the library's DEFAULT precision (x32: cursors are int32, as in a user's
+    # session); the workers otherwise enable x64
+    if case.get("jit"):
+        jax.config.update("jax_enable_x64", False)
+        try:
+            return _run_impl(case)
+        finally:
+            jax.config.update("jax_enable_x64", True)
+    return _run_impl(case)
+
+
+def _run_impl(case):
     import jax
     import jax.numpy as jnp
     import numpy as np
@@ -179,8 +197,11 @@ def run_impl(case):
         bcur = bsizes[name] if kind == "nonstatio" else b
         traces[name] = {"store0": store0, "b": bcur, "nEff": len(store0), "distinct": distinct, "trace": []}
         prev[name] = np.asarray(gs(g)).copy()
+    # execution mode: eager, or one jitted get_batch reused for every request (a fresh generator's first
+    # draw under jit exercises the int32 arithmetic of the initial cursor)
+    step = jax.jit(lambda gg: gg.get_batch()) if case.get("jit") else (lambda gg: gg.get_batch())
     for _ in range(R):
-        g, bt = g.get_batch()
+        g, bt = step(g)
         for name, (gs, gk, gb) in cursors.items():
             store = np.asarray(gs(g))
             if kind == "obs":
@@ -237,7 +258,8 @@ def nontrivial(case, obs):
 
 
 def tags(case, obs):
-    out = [f"kind={case['kind']}", "b_divides_n" if case["n"] % case["b"] == 0 else "b_not_dividing_n"]
+    out = [f"kind={case['kind']}", "b_divides_n" if case["n"] % case["b"] == 0 else "b_not_dividing_n",
+           "mode=jit,x32" if case.get("jit") else "mode=eager,x64"]
     if case["kind"] == "nonstatio":
         sz = case["sizes"]
         out.append("nonstatio_batch_sizes_" + ("all_equal" if len({tuple(v)[1] for v in sz.values()}) == 1 else "differ"))
